@@ -87,11 +87,13 @@ def build_coq(target=None, timeout=3000):
 
 
 def prove(pid):
-    """Recompiles Properties_<pid>.v (and, if present, the analysis bridge Properties_<pid>_R.v) after making
+    """Recompiles Properties_<pid>.v (and, if present, the analysis bridge Properties_<pid>_R.v and the compiled-kernel tie Properties_<pid>_K.v) after making
     their dependencies; returns (ok, theorems, assumptions, log).  theorems: list of names; assumptions: name -> text."""
     files = [f"Properties_{pid}.v"]
     if os.path.exists(os.path.join(COQ, f"Properties_{pid}_R.v")):
         files.append(f"Properties_{pid}_R.v")
+    if os.path.exists(os.path.join(COQ, f"Properties_{pid}_K.v")):
+        files.append(f"Properties_{pid}_K.v")       # kernels as compiled (coq/gen/KernelGen.v, regenerated on every run)
     all_thms, all_ass, logs, good = [], {}, [], True
     for fn in files:
         ok, thms, ass, log = prove_file(fn)
